@@ -126,6 +126,13 @@ def _cases_core(rng, tier):
             # compressed flag byte wrong
             w = list(b58check_enc((b"\xef" if t else b"\x80") + k.to_bytes(32, "big") + bytes([rng.choice([0, 2, 255])])))
         yield "from_wif " + sx("".join(w)), "from-wif-mutated"
+    # a key IMPORTED from a WIF text and then EXPORTED in every flavour (twice, mixed order) on the same object: what was
+    # imported must not colour what is exported.  Imports include payloads with a foreign version byte, a missing / odd
+    # compression flag — whatever from_wif accepts
+    for k in [1, 0x101, N - 1] + [rng.randrange(1, N) for _ in range(3 if tier == "quick" else 60)]:
+        for pre in (0x80, 0xef, 0xb0, 0x00, 0x9e, 0xff):
+            for suf in (b"\x01", b""):
+                yield "wif_cycle " + sx(b58check_enc(bytes([pre]) + k.to_bytes(32, "big") + suf)), "import-then-export"
     # a valid WIF with one line terminator / blank / control / invisible character in front of it or behind it
     for k in [1, N - 1] + [rng.randrange(1, N) for _ in range(1 if tier == "quick" else 20)]:
         for pre, suf in ((b"\x80", b"\x01"), (b"\xef", b""), (b"\x80", b""), (b"\xef", b"\x01")):
@@ -202,6 +209,18 @@ def oracle(line, out):
             return "valid WIF rejected"
         if unhex(v) != kb:
             return "WIF decoded to a different key"
+        return None
+    if op == "wif_cycle":
+        if v is None:
+            return None
+        f = v.split(" ")
+        kb = unhex(f[0])
+        order = ((1, 1), (0, 0), (1, 0), (0, 1), (0, 0), (1, 1), (1, 0), (0, 1))
+        for (c, t), got in zip(order, f[1:]):
+            want = b58check_enc((b"\xef" if t else b"\x80") + kb + (b"\x01" if c else b""))
+            if unstr(got) != want:
+                return ("wif(compressed=%s, testnet=%s) of a key imported from %s is %s, not the standard payload %s"
+                        % (bool(c), bool(t), unstr(tok[1]), unstr(got), want))
         return None
     if op == "sec_parse":
         b = unhex(tok[1])
